@@ -16,12 +16,16 @@
 """
 Service exception handling (WMS exceptions, XML, in_image, etc.).
 """
+import re
 from html import escape
 
 from mapproxy.response import Response
 from mapproxy.template import template_loader
 import mapproxy.service
 get_template = template_loader(mapproxy.service.__package__, 'templates')
+
+# characters that XML 1.0 cannot represent (not even as a character reference)
+_xml_illegal = re.compile('[^\t\n\r\x20-\ud7ff\ue000-\ufffd\U00010000-\U0010ffff]')
 
 
 class RequestError(Exception):
@@ -132,7 +136,7 @@ class XMLExceptionHandler(ExceptionHandler):
             status_code = self.status_codes.get(request_error.code, self.status_code)
 
         # escape &<> in error message (e.g. URL params)
-        msg = escape(request_error.msg)
+        msg = escape(_xml_illegal.sub('\ufffd', request_error.msg))
         result = self.template.substitute(exception=msg,
                                           code=request_error.code)
         return Response(result, mimetype=self.mimetype, content_type=self.content_type,
@@ -167,7 +171,7 @@ class OWSExceptionHandler(XMLExceptionHandler):
             status_code = self.status_codes.get(request_error.code, self.status_code)
 
         # escape &<> in error message (e.g. URL params)
-        msg = escape(request_error.msg)
+        msg = escape(_xml_illegal.sub('\ufffd', request_error.msg))
         result = self.template.substitute(exception=msg,
                                           code=request_error.code, locator=request_error.locator)
         return Response(result, mimetype=self.mimetype, content_type=self.content_type,
